@@ -1147,8 +1147,29 @@ class Analyzer:
             if short == 'copy' and args and args[0].kind == 'container':
                 return AVal([FRESH], 'container', args[0].c)
             return FRESHV
-        # unknown external: A-ext (does not mutate its arguments, returns a fresh object)
-        return FRESHV
+        # unknown external callee: it does not mutate its arguments (A-ext), and
+        #  * numpy / scipy / math / bottleneck functions outside the alias tables, methods of
+        #    unknown receivers and names in FRESH_EXTERNALS return fresh objects;
+        #  * any other external function (e.g. astropy.nddata.reshape_as_blocks, extract_array)
+        #    may return a view of / a container holding its arguments.
+        root = fname.split('.')[0]
+        full = self.fi.module.imports.get(root, '')
+        if root in T.FRESH_MODULE_ROOTS or short in T.FRESH_EXTERNALS or recv is not None \
+                or fname in T.FRESH_EXTERNALS:
+            return FRESHV
+        if full:
+            if full.split('.')[0] in T.FRESH_MODULE_ROOTS or \
+                    any(full.startswith(pfx) for pfx in T.FRESH_IMPORT_PREFIXES):
+                return FRESHV
+        else:
+            # a callable held in a local / parameter / field (user callback, estimator, fitter):
+            # A-ext -- it returns a new object and does not mutate its arguments
+            return FRESHV
+        v = AVal()
+        for a in args + list(kwargs.values()):
+            if a.kind not in ('scalar', 'index'):
+                v = v.join(AVal({deep(x) for x in a.o} | set(a.c), 'unknown', a.c))
+        return AVal(v.o | {FRESH}, 'unknown', v.c)
 
     def apply_summaries(self, cands, n, args, kwargs, recv, env, by_name=False, ctor_cls=None,
                         recv_cls=None):
